@@ -1,4 +1,6 @@
 import Ktm.CoreCount
+import Ktm.Props.C02
+import Ktm.GridReach
 /-! C11 — liveness proper: workers that always finish the trials they are given.
 
 A *worker system* is an oracle plus the set of workers that were told STOPPED. A worker's step is a function of
@@ -126,8 +128,8 @@ theorem create_maxTrials (alg : Alg V A) (o : Oracle V A) (tuner c : Nat) :
 /-- one non-aborting worker step: invariants kept, budget/configuration kept, and the potential drops by the
     productivity of the step (it never rises) -/
 theorem wstep_account (alg : Alg V A) (N : Nat) (o : Oracle V A) (a : Act) (h : Inv o) (k : KInv o)
-    (hb : o.maxTrials = some N) (hna : (step alg o (wop o a)).2 ≠ .abort) :
-    Inv (step alg o (wop o a)).1 ∧ KInv (step alg o (wop o a)).1 ∧ (step alg o (wop o a)).1.maxTrials = some N ∧
+    (hlenN : (step alg o (wop o a)).1.trials.length ≤ N) (hna : (step alg o (wop o a)).2 ≠ .abort) :
+    Inv (step alg o (wop o a)).1 ∧ KInv (step alg o (wop o a)).1 ∧
     (step alg o (wop o a)).1.maxRetries = o.maxRetries ∧
     phi N (step alg o (wop o a)).1 + prodOut (step alg o (wop o a)).2 ≤ phi N o := by
   have hinv : Inv (step alg o (wop o a)).1 := inv_step alg o _ h hna
@@ -185,32 +187,77 @@ theorem wstep_account (alg : Alg V A) (N : Nat) (o : Oracle V A) (a : Act) (h : 
           simp only [issuedStep, step, hout, hh]; rfl
         rw [hiss, ho, hout]
         simp [prodOut, prodOut0]
-  have hmt : (step alg o (wop o a)).1.maxTrials = some N := hshape.1.trans hb
   have hpsib : psi (step alg o (wop o a)).1 ≤ N * (o.maxRetries + 1) := by
     have h1 := psi_le _ k'
-    have h2 := hinv.budget N hmt
     rw [hmr] at h1
-    exact Nat.le_trans h1 (Nat.mul_le_mul_right _ h2)
-  refine ⟨hinv, k', hmt, hmr, ?_⟩
+    exact Nat.le_trans h1 (Nat.mul_le_mul_right _ hlenN)
+  refine ⟨hinv, k', hmr, ?_⟩
   unfold phi
   rw [hmr]
   have := hshape.2
   omega
 
+theorem srun_halted (alg : Alg V A) (as : List Act) : ∀ (s : Sys V A), s.halted = true → srun alg s as = s := by
+  induction as with
+  | nil => intro s _; rfl
+  | cons a as ih =>
+    intro s hs
+    have hnb : acts s a = false := by simp [acts, hs]
+    simp only [srun, sstep, hnb, Bool.false_eq_true, if_false]
+    exact ih s hs
+
+/-- the oracle of a worker system is reached by a plain request list -/
+theorem srun_run (alg : Alg V A) (as : List Act) : ∀ (s : Sys V A), ∃ ops, (srun alg s as).o = run alg s.o ops := by
+  induction as with
+  | nil => intro s; exact ⟨[], rfl⟩
+  | cons a as ih =>
+    intro s
+    simp only [srun]
+    by_cases hact : acts s a = true
+    · simp only [sstep, hact, if_true]
+      cases hout : (step alg s.o (wop s.o a)).2 with
+      | abort =>
+        simp only []
+        rw [srun_halted alg as _ rfl]
+        exact ⟨[wop s.o a], by simp [run, hout]⟩
+      | trial id v =>
+        obtain ⟨ops, hops⟩ := ih { s with o := (step alg s.o (wop s.o a)).1 }
+        exact ⟨wop s.o a :: ops, by simp only [run, hout]; exact hops⟩
+      | ok =>
+        obtain ⟨ops, hops⟩ := ih { s with o := (step alg s.o (wop s.o a)).1 }
+        exact ⟨wop s.o a :: ops, by simp only [run, hout]; exact hops⟩
+      | idle =>
+        obtain ⟨ops, hops⟩ := ih { s with o := (step alg s.o (wop s.o a)).1 }
+        exact ⟨wop s.o a :: ops, by simp only [run, hout]; exact hops⟩
+      | stopped =>
+        obtain ⟨ops, hops⟩ := ih { s with o := (step alg s.o (wop s.o a)).1, stopped := s.stopped ++ [a.w] }
+        exact ⟨wop s.o a :: ops, by simp only [run, hout]; exact hops⟩
+      | bad =>
+        obtain ⟨ops, hops⟩ := ih { s with o := (step alg s.o (wop s.o a)).1 }
+        exact ⟨wop s.o a :: ops, by simp only [run, hout]; exact hops⟩
+    · have hact' : acts s a = false := by simpa using hact
+      simp only [sstep, hact', Bool.false_eq_true, if_false]
+      exact ih s
+
 /-- **only IDLE answers can repeat**: along every interleaving of any number of workers, with any outcomes, the
-    number of productive steps (a trial handed out or ended) is bounded by the potential of the start state -/
+    number of productive steps (a trial handed out or ended) is bounded by the potential of the start state, for any
+    bound `N` on the number of trials the oracle ever holds (a trial budget, a finite grid, a finite schedule) -/
 theorem productive_le_phi (alg : Alg V A) (N : Nat) (as : List Act) : ∀ (s : Sys V A), Inv s.o → KInv s.o →
-    s.o.maxTrials = some N → productiveCount alg s as ≤ phi N s.o := by
+    (∀ as', (srun alg s as').o.trials.length ≤ N) → productiveCount alg s as ≤ phi N s.o := by
   induction as with
   | nil => intro s _ _ _; simp [productiveCount]
   | cons a as ih =>
-    intro s h k hb
+    intro s h k hB
     simp only [productiveCount]
     by_cases hact : acts s a = true
-    · simp only [productive, sstep, hact, if_true]
+    · have hB1 : (step alg s.o (wop s.o a)).1.trials.length ≤ N := by
+        have := hB [a]
+        simp only [srun, sstep, hact, if_true] at this
+        cases hout : (step alg s.o (wop s.o a)).2 <;> simp only [hout] at this <;> exact this
+      have hBnext : ∀ as', (srun alg (sstep alg s a) as').o.trials.length ≤ N := fun as' => hB (a :: as')
+      simp only [productive, hact, if_true]
       cases hout : (step alg s.o (wop s.o a)).2 with
       | abort =>
-        -- halted: nothing acts any more
         have hrest : ∀ (as : List Act) (s' : Sys V A), s'.halted = true → productiveCount alg s' as = 0 := by
           intro as
           induction as with
@@ -220,56 +267,104 @@ theorem productive_le_phi (alg : Alg V A) (N : Nat) (as : List Act) : ∀ (s : S
             have hnb : acts s' b = false := by simp [acts, hs']
             simp only [productiveCount, productive, sstep, hnb, Bool.false_eq_true, if_false, Nat.zero_add]
             exact ihb s' hs'
-        simp only [prodOut0]
+        simp only [sstep, hact, if_true, hout, prodOut0]
         rw [hrest as _ rfl]
         omega
       | trial id v =>
         have hna : (step alg s.o (wop s.o a)).2 ≠ .abort := by rw [hout]; intro hc; cases hc
-        obtain ⟨h', k', hb', _, hphi⟩ := wstep_account alg N s.o a h k hb hna
+        obtain ⟨h', k', _, hphi⟩ := wstep_account alg N s.o a h k hB1 hna
         simp only [hout, prodOut, prodOut0] at hphi
-        have := ih { s with o := (step alg s.o (wop s.o a)).1 } h' k' hb'
-        simp only [prodOut0] at this ⊢
+        have hs' : sstep alg s a = { s with o := (step alg s.o (wop s.o a)).1 } := by simp only [sstep, hact, if_true, hout]
+        have := ih (sstep alg s a) (by rw [hs']; exact h') (by rw [hs']; exact k') hBnext
+        rw [hs'] at this
+        simp only [prodOut0, hs'] at this ⊢
         omega
       | ok =>
         have hna : (step alg s.o (wop s.o a)).2 ≠ .abort := by rw [hout]; intro hc; cases hc
-        obtain ⟨h', k', hb', _, hphi⟩ := wstep_account alg N s.o a h k hb hna
+        obtain ⟨h', k', _, hphi⟩ := wstep_account alg N s.o a h k hB1 hna
         simp only [hout, prodOut, prodOut0] at hphi
-        have := ih { s with o := (step alg s.o (wop s.o a)).1 } h' k' hb'
-        simp only [prodOut0] at this ⊢
+        have hs' : sstep alg s a = { s with o := (step alg s.o (wop s.o a)).1 } := by simp only [sstep, hact, if_true, hout]
+        have := ih (sstep alg s a) (by rw [hs']; exact h') (by rw [hs']; exact k') hBnext
+        rw [hs'] at this
+        simp only [prodOut0, hs'] at this ⊢
         omega
       | idle =>
         have hna : (step alg s.o (wop s.o a)).2 ≠ .abort := by rw [hout]; intro hc; cases hc
-        obtain ⟨h', k', hb', _, hphi⟩ := wstep_account alg N s.o a h k hb hna
+        obtain ⟨h', k', _, hphi⟩ := wstep_account alg N s.o a h k hB1 hna
         simp only [hout, prodOut, prodOut0] at hphi
-        have := ih { s with o := (step alg s.o (wop s.o a)).1 } h' k' hb'
-        simp only [prodOut0] at this ⊢
+        have hs' : sstep alg s a = { s with o := (step alg s.o (wop s.o a)).1 } := by simp only [sstep, hact, if_true, hout]
+        have := ih (sstep alg s a) (by rw [hs']; exact h') (by rw [hs']; exact k') hBnext
+        rw [hs'] at this
+        simp only [prodOut0, hs'] at this ⊢
         omega
       | stopped =>
         have hna : (step alg s.o (wop s.o a)).2 ≠ .abort := by rw [hout]; intro hc; cases hc
-        obtain ⟨h', k', hb', _, hphi⟩ := wstep_account alg N s.o a h k hb hna
+        obtain ⟨h', k', _, hphi⟩ := wstep_account alg N s.o a h k hB1 hna
         simp only [hout, prodOut, prodOut0] at hphi
-        have := ih { s with o := (step alg s.o (wop s.o a)).1, stopped := s.stopped ++ [a.w] } h' k' hb'
-        simp only [prodOut0] at this ⊢
+        have hs' : sstep alg s a = { s with o := (step alg s.o (wop s.o a)).1, stopped := s.stopped ++ [a.w] } := by
+          simp only [sstep, hact, if_true, hout]
+        have := ih (sstep alg s a) (by rw [hs']; exact h') (by rw [hs']; exact k') hBnext
+        rw [hs'] at this
+        simp only [prodOut0, hs'] at this ⊢
         omega
       | bad =>
         have hna : (step alg s.o (wop s.o a)).2 ≠ .abort := by rw [hout]; intro hc; cases hc
-        obtain ⟨h', k', hb', _, hphi⟩ := wstep_account alg N s.o a h k hb hna
+        obtain ⟨h', k', _, hphi⟩ := wstep_account alg N s.o a h k hB1 hna
         simp only [hout, prodOut, prodOut0] at hphi
-        have := ih { s with o := (step alg s.o (wop s.o a)).1 } h' k' hb'
-        simp only [prodOut0] at this ⊢
+        have hs' : sstep alg s a = { s with o := (step alg s.o (wop s.o a)).1 } := by simp only [sstep, hact, if_true, hout]
+        have := ih (sstep alg s a) (by rw [hs']; exact h') (by rw [hs']; exact k') hBnext
+        rw [hs'] at this
+        simp only [prodOut0, hs'] at this ⊢
         omega
     · have hact' : acts s a = false := by simpa using hact
-      simp only [productive, sstep, hact', Bool.false_eq_true, if_false, Nat.zero_add]
-      exact ih s h k hb
+      have hs' : sstep alg s a = s := by simp only [sstep, hact', Bool.false_eq_true, if_false]
+      simp only [productive, hact', Bool.false_eq_true, if_false, Nat.zero_add, hs']
+      exact ih s h k hB
 
 /-- from a fresh oracle with a budget of `N` trials: at most `2 · N · (max_retries + 1)` productive steps, whatever
     the algorithm, the number of workers, the interleaving and the outcomes -/
 theorem productive_bounded (alg : Alg V A) (a0 : A) (N maxRetries maxConsec : Nat) (as : List Act) :
     productiveCount alg ⟨init (V := V) a0 (some N) maxRetries maxConsec, [], false⟩ as ≤ 2 * (N * (maxRetries + 1)) := by
+  have hB : ∀ as', (srun alg ⟨init (V := V) a0 (some N) maxRetries maxConsec, [], false⟩ as').o.trials.length ≤ N := by
+    intro as'
+    obtain ⟨ops, hops⟩ := srun_run alg as' ⟨init (V := V) a0 (some N) maxRetries maxConsec, [], false⟩
+    rw [hops]
+    exact Props.C02.budget_from_init alg a0 N maxRetries maxConsec ops
   have h := productive_le_phi alg N as ⟨init (V := V) a0 (some N) maxRetries maxConsec, [], false⟩
-    (inv_init a0 (some N) maxRetries maxConsec) (kinv_init a0 (some N) maxRetries maxConsec) rfl
+    (inv_init a0 (some N) maxRetries maxConsec) (kinv_init a0 (some N) maxRetries maxConsec) hB
   have hphi : phi N (init (V := V) a0 (some N) maxRetries maxConsec) = 2 * (N * (maxRetries + 1)) := by
     simp [phi, init, psi]
+  rw [hphi] at h
+  exact h
+
+/-- grid search without a trial limit: the finite grid is the budget — at most `2 · |grid| · (max_retries + 1)`
+    productive steps along every interleaving of workers, finishing orders and outcomes -/
+theorem grid_productive_bounded (space : List GridSucc.GHP) (hs : Grid.SpaceOK space) (as : List Act) :
+    productiveCount Grid.alg ⟨Grid.init space, [], false⟩ as ≤
+      2 * ((GridSucc.enum space []).length * ((Grid.init space).maxRetries + 1)) := by
+  have hB : ∀ as', (srun Grid.alg ⟨Grid.init space, [], false⟩ as').o.trials.length ≤ (GridSucc.enum space []).length := by
+    intro as'
+    obtain ⟨ops, hops⟩ := srun_run Grid.alg as' ⟨Grid.init space, [], false⟩
+    rw [hops]
+    have hg := Grid.ginv_reachable (Grid.init space) hs (Grid.ginv_init space) ops
+    cases hn : (run Grid.alg (Grid.init space) ops).trials.length with
+    | zero => omega
+    | succ k =>
+      have hk : k < (run Grid.alg (Grid.init space) ops).trials.length := by omega
+      have := hg.1.vals k _ (List.getElem?_eq_getElem hk)
+      rw [hg.2] at this
+      have := (List.getElem?_eq_some_iff.mp this).1
+      have hsp : (Grid.init space).alg.space = space := rfl
+      rw [hsp] at this
+      omega
+  have h := productive_le_phi Grid.alg (GridSucc.enum space []).length as ⟨Grid.init space, [], false⟩
+    (by
+      have := inv_init (V := GridSucc.Env) ({ space := space, ordered := [], queue := [] } : Grid.St) none 0 1000
+      exact this)
+    (by intro i t ht; simp [Grid.init, Core.init] at ht) hB
+  have hphi : phi (GridSucc.enum space []).length (Grid.init space)
+      = 2 * ((GridSucc.enum space []).length * ((Grid.init space).maxRetries + 1)) := by
+    simp [phi, Grid.init, Core.init, psi]
   rw [hphi] at h
   exact h
 
